@@ -7,6 +7,7 @@ use std::{
     fmt::Display,
     fs,
     iter::repeat_n,
+    mem::take,
     path::{Path, PathBuf},
     sync::Arc,
     time::Duration,
@@ -408,8 +409,8 @@ fn format_impl(input: &str, src: InputSrc, config: &FormatConfig) -> UiuaResult<
     let mut inputs = Inputs::default();
     let (items, errors, _) = parse(input, src.clone(), &mut inputs);
     if errors.is_empty() {
-        let (output, glyph_map) = Formatter {
-            src,
+        let formatter = |eval_input: Option<EcoString>| Formatter {
+            src: src.clone(),
             config,
             inputs: &inputs,
             output: Output::default(),
@@ -419,8 +420,16 @@ fn format_impl(input: &str, src: InputSrc, config: &FormatConfig) -> UiuaResult<
             output_comments: None,
             type_sig_comments: None,
             eval_output_comments: true,
+            eval_input,
+            quoted_error: false,
+        };
+        let mut first = formatter(None);
+        let (mut output, mut glyph_map) = first.format_top_items(&items);
+        // An error quoted by an output comment carries its position in the evaluated code.
+        // Quote its position in the formatted code, which is where it is when formatting again.
+        if first.quoted_error && output != input {
+            (output, glyph_map) = formatter(Some(output.into())).format_top_items(&items);
         }
-        .format_top_items(&items);
         let formatted = FormatOutput {
             output,
             glyph_map,
@@ -478,6 +487,8 @@ pub(crate) fn format_words(words: &[Sp<Word>], inputs: &Inputs) -> String {
         output_comments: None,
         type_sig_comments: None,
         eval_output_comments: false,
+        eval_input: None,
+        quoted_error: false,
     };
     formatter.format_words(words, true, 0);
     formatter.output.text
@@ -495,6 +506,8 @@ pub(crate) fn format_word(word: &Sp<Word>, inputs: &Inputs) -> String {
         output_comments: None,
         type_sig_comments: None,
         eval_output_comments: false,
+        eval_input: None,
+        quoted_error: false,
     };
     formatter.format_word(word, 0);
     formatter.resolve_eol_comments();
@@ -512,22 +525,26 @@ struct Formatter<'a> {
     output_comments: Option<HashMap<usize, Vec<Vec<Value>>>>,
     type_sig_comments: Option<HashMap<usize, TypeSig>>,
     eval_output_comments: bool,
+    /// The code to evaluate for output comments instead of the input
+    eval_input: Option<EcoString>,
+    /// Whether an output comment quotes an error
+    quoted_error: bool,
 }
 
 type EoLComment = (usize, usize, String);
 type GlyphMap = Vec<(CodeSpan, (Loc, Loc))>;
 
 impl Formatter<'_> {
-    fn format_top_items(mut self, items: &[Item]) -> (String, GlyphMap) {
+    fn format_top_items(&mut self, items: &[Item]) -> (String, GlyphMap) {
         self.format_items(items, 0);
-        let mut output = self.output.text;
+        let mut output = take(&mut self.output.text);
         while output.ends_with('\n') {
             output.pop();
         }
         if self.config.trailing_newline && !output.trim().is_empty() {
             output.push('\n');
         }
-        (output, self.glyph_map)
+        (output, take(&mut self.glyph_map))
     }
     fn format_items(&mut self, items: &[Item], depth: usize) {
         let items = flip_unsplit_items(items.to_vec());
@@ -1552,16 +1569,18 @@ impl Formatter<'_> {
                 .with_execution_limit(Duration::from_secs(1));
 
             let enabled = env.rt.backend.set_output_enabled(false);
+            let input = (self.eval_input.clone()).unwrap_or_else(|| self.inputs.get(&self.src));
             let res = env.compile_run(|comp| {
                 comp.print_diagnostics(false)
                     .mode(RunMode::All)
                     .pre_eval_mode(PreEvalMode::Lazy)
-                    .load_str_src(&self.inputs.get(&self.src), self.src.clone())
+                    .load_str_src(&input, self.src.clone())
             });
             env.rt.backend.set_output_enabled(enabled);
 
             let mut values = env.rt.output_comments;
             if let Err(e) = res {
+                self.quoted_error = true;
                 let next = (0..).take_while(|i| values.contains_key(i)).count();
                 values.insert(next, vec![vec![e.to_string().into()]]);
             }
